@@ -51,6 +51,8 @@ pub struct Game {
     pub first_sim_of_zero_seen: bool,
     /// false: states are saved WITHOUT a checksum (legitimate when desync detection is off)
     pub save_checksum: bool,
+    /// Some(n): only frames divisible by n are saved with a checksum (a game that checksums now and then)
+    pub checksum_mod: Option<i32>,
     /// true (C02's oracle): a load of a cell that does not hold the state of that frame on the current timeline is an
     /// error; false: the game loads whatever the cell holds, as a real game would, and the other oracles judge the outcome
     pub strict_cells: bool,
@@ -78,6 +80,7 @@ impl Game {
             nondet: None,
             first_sim_of_zero_seen: false,
             save_checksum: true,
+            checksum_mod: None,
             strict_cells: true,
             stale_loads: 0,
         };
@@ -168,7 +171,7 @@ impl Game {
                     self.c.saves += 1;
                     h = mix(h, (1 << 60) | frame as u64);
                     self.checksums.insert(frame, st.checksum());
-                    cell.save(frame, Some(st), if self.save_checksum { Some(st.checksum()) } else { None });
+                    cell.save(frame, Some(st), if self.save_checksum && self.checksum_mod.is_none_or(|n| frame % n == 0) { Some(st.checksum()) } else { None });
                     self.cells.insert(frame, cell);
                     self.ensure(frame);
                     let i = (frame - self.base) as usize;
